@@ -59,7 +59,9 @@ def on_verdict_factory(chk, pid, monitors):
 
 
 C05_MONITORS = {"ResponseIntegrity", "RequestIntegrity", "SeqConsecutive", "MoreFollows", "WindowBound", "WindowRange",
-                "SingleFaultRepaired", "Terminates", "AtMostOneOutcome"}
+                "SingleFaultRepaired", "Terminates", "AtMostOneOutcome",
+                # "a transfer that cannot be completed is reported as an abort": at quiescence the requester has its one outcome
+                "ExactlyOneAtQuiescence"}
 
 
 def single_fault_traces(rc, kinds=("drop", "dup", "delay", "shrink"), orders=("fifo", "timers"), frames=None):
@@ -151,7 +153,10 @@ def main(tier, seed):
             lens = range(0, 4 * seg + 3) if seg <= 206 else sorted(set(
                 [x for k in range(0, 5) for x in range(max(0, k * seg - 3), k * seg + 4)] + [rng.randrange(0, 4 * seg + 3) for _ in range(300)]))
         else:
-            lens = sorted(set(x for k in range(0, 5) for x in (k * seg - 1, k * seg, k * seg + 1, k * seg + 2) if 0 <= x <= 4 * seg + 2))
+            # around the multiples of the max APDU size and of the segment sizes (max APDU minus the 5 / 6 header octets of a
+            # segmented ack / request): payloads that fill their last segment exactly
+            lens = sorted(set(x for k in range(0, 5) for u in (seg, seg - 5, seg - 6) for x in (k * u - 1, k * u, k * u + 1, k * u + 2)
+                              if 0 <= x <= 4 * seg + 2))
         for L in lens:
             rc = tsmlib.rig_cfg(seg=seg, lq=L, lr=L, pwc=rng.choice([1, 2, 4, 8]), pws=rng.choice([1, 2, 3, 8]))
             traces.append(tsmlib.record(rc))
@@ -168,6 +173,13 @@ def main(tier, seed):
         for t in single_fault_traces(rc):
             traces.append(t)
             chk.case(("sf2", seg, nq, nr, tuple(t["faults"].items()), t["order"]), nontrivial=True)
+    # (ii-) the peer goes silent for good from some frame on: the transfer cannot be completed and must be reported as an abort
+    for nq, nr, w in ([(1, 5, 2), (3, 4, 3), (4, 1, 2), (6, 6, 4)] if thorough else [(1, 5, 2), (3, 4, 3)]):
+        rc = tsmlib.rig_cfg(seg=50, nq=nq, nr=nr, pwc=w, pws=w)
+        nfr = len(tsmlib.record(rc)["frames"])
+        for k in range(1, nfr + 2):
+            traces.append(tsmlib.record(rc, silence_from=k))
+            chk.case(("silence", nq, nr, w, k), nontrivial=True)
     # (ii'') a long segmented request whose short reply is lost (or comes after the APDU timeout): the whole request is
     # repeated from segment 0 -- more segments than one window + 1, so that a window position left over from the first
     # attempt matters
